@@ -780,6 +780,13 @@ fn run_single_test(test: &TestInfo) -> TestResult {
         }
     };
 
+    // The generated crate contains the test function as an ordinary `fn`; without a `#[test]` item that calls it,
+    // `cargo test` runs nothing and reports success whatever the body does.
+    let rust_code = format!(
+        "{rust_code}\n#[cfg(test)]\nmod __incan_test_harness {{\n    #[test]\n    fn run_selected_test() {{\n        super::{}();\n    }}\n}}\n",
+        test.function_name
+    );
+
     let temp_dir = format!("target/incan_tests/{}", test.function_name);
     let generator = ProjectGenerator::new(&temp_dir, "test_runner", true);
 
